@@ -52,9 +52,13 @@ ASSUMPTIONS = [
     'more than ~40 statements or arraySort comparators (stream partialhist, scale part) are checked on the implementation only, against closed '
     'forms: the Lean host has no function that writes the globals object other than systemGlobalSet, no arraySort, and the model runs use a '
     'statement budget of 200',
+    'histories of executions of ONE parsed model object (stream reexec: the same model executed again with the same / fresh globals and options '
+    'objects, function values of an earlier execution called after a later one, two models executed in turn) are checked on the implementation '
+    'only, against the closed binding formula and the reference: a run of the Lean machine always starts from the syntax tree, it has no '
+    'identity of a parsed model; executions with fresh globals of the modelled families are also compared with the model outcome',
 ]
 TRUSTED = ['reference interpreter of scoping / calling convention / library injection (class Ref, with its own systemGlobalGet/Set, its own systemPartial [an immutable snapshot of the bound arguments per partial value] and its own include: an included script runs at top level; arguments are evaluated left to right BEFORE the callee is looked up) and the closed-form '
-           'oracles (expected_binding, the include-scope matrix scope_cell_case, the callee-rebinding matrix rebind_case / oracle_rebind_host, the partial-history expectation ph_build, the include-position metamorphic relation, the source-spelling '
+           'oracles (expected_binding, the include-scope matrix scope_cell_case, the callee-rebinding matrix rebind_case / oracle_rebind_host, the partial-history expectation ph_build, the re-execution histories check_reexec (every execution of one model object = the closed binding formula), the include-position metamorphic relation, the source-spelling '
            'renderer Speller / header_text whose texts are expected to mean the structured program they were rendered from) in '
            'harness/props/C04.py; the library functions themselves, the operators and value_string are shared '
            'with the implementation (they belong to C03/C13/C15)']
@@ -2322,6 +2326,305 @@ def stream_sidefx(ctx):
         compare_program(ctx, 'sidefx', st, prog, host, tags, False, next(resps) if modelled else None, modelled=modelled, files=files)
 
 
+# ---------------------------------------------------------------------------------------------------------------------
+# RE-EXECUTION (R9C04-m2 family).  The statement of the property is about every call of every execution: a host parses a script once
+# and executes the parsed model as often as it likes (same or fresh globals / options objects), a `function` statement may be reached
+# several times in one run (a jump loop at top level, a definition nested in a function body), two models may define the same name
+# with different parameter lists.  Whatever an execution precomputes, caches or consumes while it binds parameters, the NEXT execution
+# of the same model object must bind by the same closed formula; a function value obtained from an earlier execution keeps binding that
+# way after later executions.  The Lean machine has no notion of the identity of a parsed model (every model run starts from the syntax
+# tree), so the histories are checked on the implementation against the closed forms / the reference; an execution with fresh globals
+# is also compared with the model's outcome for the program where the family is modelled.
+# ---------------------------------------------------------------------------------------------------------------------
+
+RX_SCHEDULES = ['fresh', 'same-globals', 'same-options', 'fresh-then-first']
+RX_SHAPES = [([], False), ([], True), (['p'], False), (['p'], True), (['p', 'q'], False), (['p', 'q'], True), (['p', 'q', 'r'], False),
+             (['p', 'q', 'r'], True), (['p', 'p'], True), (['p', 'q', 'p'], True)]
+RX_EXECUTION_SIZES = [1, 2, 3, 9, 10, 11, 16, 17, 64, 65]
+
+
+def rx_execute(models, host_spec, schedule, max_statements=MAX_STATEMENTS, ftexts=None):
+    """execute the model OBJECTS of `models` one after the other (the same object may occur several times) -> one record per execution
+    {'out': canonical outcome (shape of progen.run_impl, the log lines of THIS execution), 'g': globals object, 'options', 'log'}.
+    schedule: 'fresh' - new globals and options objects for every execution; 'same-globals' - one globals object, new options objects;
+    'same-options' - one options object (hence one globals object) handed to every execute_script; 'fresh-then-first' - fresh objects
+    for the first two executions, every later one runs in the globals object of the FIRST again"""
+    mods = fw.impl()
+    runtime, library, parser = mods['runtime'], mods['library'], mods['parser']
+    runs = []
+    for i, model in enumerate(models):
+        options = None
+        if i == 0 or schedule == 'fresh' or (schedule == 'fresh-then-first' and i == 1):
+            g, log = realize_globals(host_spec), []
+        elif schedule == 'fresh-then-first':
+            g, log = runs[0]['g'], runs[0]['log']
+        else:
+            g, log = runs[-1]['g'], runs[-1]['log']
+            if schedule == 'same-options':
+                options = runs[-1]['options']
+        if options is None:
+            options = {'globals': g, 'maxStatements': max_statements, 'logFn': log.append}
+            if ftexts is not None:
+                options['fetchFn'] = lambda req, ftexts=ftexts: ftexts.get(req['url'])
+        start = len(log)
+        out = {}
+        try:
+            out['result'] = progen.value_to_wire(runtime.execute_script(model, options), library.SCRIPT_FUNCTIONS)
+        except runtime.BareScriptRuntimeError as exc:
+            out['error'] = str(exc)
+        except parser.BareScriptParserError as exc:
+            out['error'] = 'ParserError ' + str(exc).split('\n', 1)[0]
+        except RecursionError:
+            out['hostexc'] = 'RecursionError'
+        except Exception as exc:  # pylint: disable=broad-except
+            out['hostexc'] = type(exc).__name__ + ': ' + str(exc)[:200]
+        out['log'] = log[start:]
+        out['globals'] = sorted([[k, progen.value_to_wire(v, library.SCRIPT_FUNCTIONS)] for k, v in g.items()
+                                 if not (k in library.SCRIPT_FUNCTIONS and v is library.SCRIPT_FUNCTIONS[k])], key=lambda kv: kv[0])
+        out['count'] = options.get('statementCount')
+        runs.append({'out': progen.canon_neg_zero(out), 'g': g, 'options': options, 'log': log})
+    return runs
+
+
+def rx_probe_function(params, rest):
+    body = []
+    for p in dict.fromkeys(params):
+        body += probe_stmts(p)
+    return fdef('ff', params, body + [log_stmt(string('-')), {'k': 'ret', 'e': num(0)}], rest)
+
+
+def rx_nested_program(params, rest, nargs, path, calls):
+    """the function statement of ff stands in the body of outer(): it is executed once per call of outer (hand-built model)"""
+    args = ARG_EXPRS[:nargs]
+    body = [rx_probe_function(params, rest)]
+    if path == 'direct':
+        body.append(asg('res', call('ff', *args)))
+    elif path == 'partial':
+        body += [asg('pv', call('systemPartial', var('ff'), *args[:1])), asg('res', call('pv', *args[1:]))]
+    else:
+        body.append(asg('res', call('arrayIndexOf', call('arrayNew', *args), var('ff'))))
+    body.append({'k': 'ret', 'e': var('res')})
+    return progen.assign_fids([fdef('outer', ['n'], body)] + [asg('out', call('outer', num(i))) for i in range(calls)])
+
+
+def rx_loop_text(params, rest, nargs, iterations):
+    """the function statement (and a call) inside a top-level jump loop: the parsed statement is reached `iterations` times in one run"""
+    lines = progen.render(binding_program(params, rest, nargs, 'direct'))
+    return '\n'.join(['ix = 0', 'again:'] + list(lines) + ['ix = ix + 1', f'jumpif (ix < {iterations}) again']) + '\n'
+
+
+def rx_first(bad, execution, of):
+    """label the failures of one execution; the oracle names get the prefix reexec:"""
+    return [('reexec:' + oracle, want, {'execution': execution + 1, 'of': of, 'got': got}) for oracle, want, got in bad]
+
+
+def rx_function_values_kept(runs, params, rest, vals):
+    """after the last execution: the script function value left in the globals of EVERY execution, called from the host"""
+    bad, seen = [], []
+    want = binding_expected_log(params, rest, [vals])
+    for i, run in enumerate(runs):
+        if any(run['g'] is g for g in seen):
+            continue
+        seen.append(run['g'])
+        fn = run['g'].get('ff')
+        start = len(run['log'])
+        try:
+            fn(list(vals), run['options'])
+            got = run['log'][start:]
+        except Exception as exc:  # pylint: disable=broad-except
+            got = type(exc).__name__ + ': ' + str(exc)[:200]
+        if got != want:
+            bad.append(('reexec:function-value-kept', want, {'execution': i + 1, 'of': len(runs), 'got': got}))
+            break
+    return bad
+
+
+def check_reexec(case, outcomes=None):
+    """one re-execution history -> [(oracle, expected, actual)] (the first execution that bound something else); `outcomes`, if a list,
+    receives the canonical outcome of every execution"""
+    fam, n, schedule = case['family'], case['runs'], case.get('schedule', 'fresh')
+    per_run, after = None, None
+    if fam == 'binding':
+        cell = (list(case['cell'][0]),) + tuple(case['cell'][1:])
+        params, rest, nargs, path, _ = cell
+        model = parse('\n'.join(progen.render(binding_program(*cell))))
+        models = [explicit_flags(model) if case.get('flags') else model] * n
+        runs = rx_execute(models, {}, schedule)
+        per_run = lambda i, out: check_binding_cell(cell, out)  # noqa: E731
+        after = lambda: rx_function_values_kept(runs, params, rest, ARG_VALUES[:nargs])  # noqa: E731
+    elif fam == 'history':
+        hist = case['hist']
+        model = parse('\n'.join(progen.render(ph_build(hist)[0])))
+        runs = rx_execute([model] * n, {}, schedule, max_statements=PH_MAX_STATEMENTS)
+        per_run = lambda i, out: check_partial_history(hist, out)  # noqa: E731
+    elif fam == 'nested':
+        params, rest, nargs, path, calls = case['params'], case['rest'], case['nargs'], case['path'], case['calls']
+        prog = rx_nested_program(params, rest, nargs, path, calls)
+        runs = rx_execute([to_model(prog)] * n, {}, schedule)
+        want = binding_expected_log(params, rest, binding_calls(nargs, path) * calls)
+
+        def per_run(i, out):
+            bad = [] if out.get('log') == want and 'error' not in out and 'hostexc' not in out else \
+                [('parameter-binding', want, out.get('log') if 'error' not in out and 'hostexc' not in out else out)]
+            return bad + (oracle_run(prog, {}, out) if schedule == 'fresh' else [])
+    elif fam == 'loop':
+        params, rest, nargs, iterations = case['params'], case['rest'], case['nargs'], case['iterations']
+        runs = rx_execute([parse(rx_loop_text(params, rest, nargs, iterations))] * n, {}, schedule)
+        want = binding_expected_log(params, rest, [ARG_VALUES[:nargs]] * iterations)
+        per_run = lambda i, out: [] if out.get('log') == want and 'error' not in out and 'hostexc' not in out else \
+            [('parameter-binding', want, out.get('log') if 'error' not in out and 'hostexc' not in out else out)]  # noqa: E731
+        after = lambda: rx_function_values_kept(runs, params, rest, ARG_VALUES[:nargs])  # noqa: E731
+    elif fam == 'alternate':
+        # two (three) models that define ff with DIFFERENT parameter lists, executed in turn
+        shapes, nargs = case['shapes'], case['nargs']
+        cells = [(list(params), rest, nargs, case.get('path', 'direct'), 1) for params, rest in shapes]
+        parsed = [parse('\n'.join(progen.render(binding_program(*cell)))) for cell in cells]
+        runs = rx_execute([parsed[i % len(parsed)] for i in range(n)], {}, schedule)
+        per_run = lambda i, out: check_binding_cell(cells[i % len(cells)], out)  # noqa: E731
+    elif fam == 'program':
+        prog, fprogs, host = case['prog'], case.get('fprogs'), case['globals']
+        model = parse('\n'.join(progen.render(prog)))
+        models = [explicit_flags(model) if case.get('flags') else model] * n
+        runs = rx_execute(models, host, 'fresh', ftexts=files_text(fprogs))
+
+        def per_run(i, out):
+            bad = [('no-host-exception', 'result or BareScriptRuntimeError', out['hostexc'])] if 'hostexc' in out else []
+            bad += oracle_run(prog, host, out, fprogs)
+            if not bad and out != runs[0]['out']:
+                bad.append(('same-outcome-as-first-execution', runs[0]['out'], out))
+            return bad
+    else:
+        raise ValueError(fam)
+    if outcomes is not None:
+        outcomes.extend(run['out'] for run in runs)
+    for i, run in enumerate(runs):
+        bad = per_run(i, run['out'])
+        if bad:
+            return rx_first(bad, i, n)
+    return after() if after is not None else []
+
+
+def rx_directed_cases(ctx, thorough_all):
+    """the closed-form families"""
+    cells = list(binding_cells())
+    # (a) the whole calling-convention matrix, one parsed model object executed 3 times; quick: two of the four schedules per cell
+    #     (rotating) and parsed / explicit-flag model alternating, thorough: everything
+    for ci, cell in enumerate(cells):
+        for si, schedule in enumerate(RX_SCHEDULES):
+            for flags in (False, True):
+                if thorough_all or ((ci + si) % 2 == 0 and flags == bool((ci // 2 + si // 2) % 2)):
+                    yield {'family': 'binding', 'cell': list(cell), 'flags': flags, 'schedule': schedule, 'runs': 3 if (ci + si) % 3 else 2}
+    # (b) SCALE axis on the number of executions of one model object
+    for params, rest in RX_SHAPES:
+        for n in RX_EXECUTION_SIZES:
+            for schedule in (RX_SCHEDULES if n <= 3 else RX_SCHEDULES[:2]):
+                yield {'family': 'binding', 'cell': [params, rest, 5, 'direct', 0], 'flags': False, 'schedule': schedule, 'runs': n}
+    # (c) partial histories: the base-reuse family by every path and the small sizes of the scale families, 2-3 executions
+    for hi, (tag, hist) in enumerate(ph_directed()):
+        if tag.startswith('base-reuse') or tag.split(':')[1] in ('0', '1', '2', '9', '17'):
+            yield {'family': 'history', 'hist': hist, 'schedule': RX_SCHEDULES[hi % 4], 'runs': 2 + hi % 2, 'tag': tag.split(':')[0]}
+    # (d) the function statement reached several times in ONE run: nested in a function body (hand-built), in a top-level jump loop
+    for params, rest in RX_SHAPES:
+        for nargs in (0, 1, 2, 3, 5):
+            for path in ('direct', 'partial', 'indexof'):
+                if nargs >= 1 or path == 'direct':
+                    for runs, schedule in ((1, 'fresh'), (2, 'fresh'), (2, 'same-globals')):
+                        yield {'family': 'nested', 'params': params, 'rest': rest, 'nargs': nargs, 'path': path, 'calls': 3, 'runs': runs,
+                               'schedule': schedule}
+            for iterations, runs, schedule in ((2, 1, 'fresh'), (3, 2, 'same-options'), (4, 3, 'fresh-then-first')):
+                yield {'family': 'loop', 'params': params, 'rest': rest, 'nargs': nargs, 'iterations': iterations, 'runs': runs,
+                       'schedule': schedule}
+    # (e) two models binding the same name with different parameter lists, executed in turn (A B A B)
+    for a, b in itertools.permutations(RX_SHAPES[:8], 2):
+        for si, schedule in enumerate(RX_SCHEDULES):
+            if thorough_all or (RX_SHAPES.index(a) + RX_SHAPES.index(b) + si) % 2 == 0:
+                yield {'family': 'alternate', 'shapes': [list(a), list(b)], 'nargs': 4, 'schedule': schedule, 'runs': 4,
+                       'path': ('direct', 'partial', 'variable', 'parameter')[si]}
+
+
+def rx_nontrivial(case):
+    fam = case['family']
+    if fam == 'binding':
+        return len(case['cell'][0]) > 0 and case['runs'] >= 2
+    if fam == 'history':
+        return bool(case['hist']['params'])
+    if fam == 'alternate':
+        return True
+    return len(case['params']) > 0
+
+
+def rx_tags(case):
+    fam = case['family']
+    tags = ['family:' + fam, 'schedule:' + case.get('schedule', 'fresh'), f"executions:{case['runs']}"]
+    if fam == 'binding':
+        tags += ['path:' + case['cell'][3], f"params{len(case['cell'][0])}" + ('...' if case['cell'][1] else '')]
+        tags += ['explicit-lastArgArray'] if case.get('flags') else []
+    elif fam == 'history':
+        tags += [case['tag'], f"params{len(case['hist']['params'])}" + ('...' if case['hist']['rest'] else '')]
+    elif fam in ('nested', 'loop'):
+        tags += [f"params{len(case['params'])}" + ('...' if case['rest'] else '')] + (['path:' + case['path']] if fam == 'nested' else [])
+    return tags
+
+
+def stream_reexec(ctx):
+    st = ctx.stream('reexec', 'ONE parsed model object executed again (a host that parses once and runs many times): (a) every cell of the '
+                              'calling-convention matrix of `binding` (parameters x `...` x duplicate name x 0-5 arguments x direct / variable / '
+                              'parameter / every partial split / partial of a partial / arrayIndexOf / arraySort), parsed and hand-built '
+                              'explicit-flag model, executed 2-3 times under the schedules {fresh globals and options every time, one globals '
+                              'object, one options object, fresh twice then the first globals again}; after the last execution the function '
+                              'value left by every execution is called from the host; (b) SCALE on the number of executions: 1,2,3,9,10,11,16,'
+                              '17,64,65 executions of one model x 10 parameter shapes; (c) partial histories of `partialhist` (base re-use by every '
+                              'path, siblings / bound arguments / chains of size 0,1,2,9,17; random histories) executed 2-3 times; (d) the '
+                              'function statement reached several times in one run: nested in a function body called 3 times [hand-built; also '
+                              'against the Lean machine and the reference] and inside a top-level jump loop of 2-4 iterations, each executed 1-3 '
+                              'times; (e) two models that bind ff with different parameter lists executed in turn A B A B; (f) generated '
+                              'programs of `calls` / `sort` / `includes` / `sidefx` (call-backs, partials, includes) executed 3 times with fresh '
+                              'globals: every execution against the Python reference, the Lean machine [where modelled] and equal to the first. '
+                              'EVERY execution must log the closed binding formula. Implementation-side oracles: the Lean machine has no identity '
+                              'of a parsed model, a model run always starts from the syntax tree; non-trivial = at least one parameter and the '
+                              'function statement executed at least twice')
+    cases = list(rx_directed_cases(ctx, ctx.scale(0, 1) == 1))
+    rng = ctx.rng('reexec')
+    for i in range(ctx.scale(60, 1500)):
+        hist, tags = ph_random(rng, allow_sort=(i % 4 == 3))
+        cases.append({'family': 'history', 'hist': hist, 'schedule': RX_SCHEDULES[i % 4], 'runs': 2 + i % 2, 'tag': 'random'})
+    modelled = {}
+    for i in range(ctx.scale(150, 4000)):
+        sort = i % 4 == 3
+        gen = (NestGen if i % 3 == 2 else IncludeGen if i % 3 == 1 else CallGen)(rng, allow_sort=sort)
+        prog = gen.program()
+        cases.append({'family': 'program', 'prog': prog, 'fprogs': getattr(gen, 'files', None), 'globals': gen.host(), 'flags': i % 2 == 1,
+                      'runs': 3, 'schedule': 'fresh', 'tags': sorted(gen.tags)})
+        if not sort:
+            modelled[len(cases) - 1] = exec_request(prog, cases[-1]['globals'], cases[-1]['fprogs'])
+    for ix, case in enumerate(cases):
+        if case['family'] == 'nested' and case['schedule'] == 'fresh':
+            model = to_model(rx_nested_program(case['params'], case['rest'], case['nargs'], case['path'], case['calls']))
+            modelled[ix] = {'op': 'exec', 'script': progen.canon_script(model), 'globals': [], 'max': MAX_STATEMENTS, 'fuel': FUEL}
+    order = sorted(modelled)
+    resps = dict(zip(order, ctx.driver.batch([modelled[ix] for ix in order])))
+    failed = set()
+    for ix, case in enumerate(cases):
+        scale_key = json.dumps([case['cell'][:2], case['schedule']]) if case['family'] == 'binding' and case['runs'] > 3 else None
+        if scale_key in failed:
+            continue                                            # a smaller number of executions of this shape already is a witness
+        outcomes = []
+        bad = check_reexec(case, outcomes)
+        if case['family'] == 'program':
+            outcome = 'hostexc' if 'hostexc' in outcomes[0] else 'exceeded' if budget_exceeded(outcomes[0]) else 'error' if 'error' in outcomes[0] else 'ok'
+            st.case([case['prog'], case['globals'], case['flags'], case['fprogs']],
+                    nontrivial=outcome == 'ok' and any(ln for ln in outcomes[0]['log']), tags=rx_tags(case) + case['tags'] + [outcome])
+        else:
+            st.case(case, nontrivial=rx_nontrivial(case), tags=rx_tags(case))
+        if ix in resps:
+            for i, out in enumerate(outcomes):
+                ctx.compare('reexec', {'kind': 'reexec', 'case': case, 'execution': i + 1}, out, progen.canon_model_out(resps[ix]))
+        witness_all(ctx, 'reexec', {'case': case}, bad)
+        if bad and scale_key is not None:
+            failed.add(scale_key)
+    st.exhaustive = False
+
+
 def streams(ctx):
     stream_handbuilt(ctx)
     stream_binding(ctx)
@@ -2331,6 +2634,7 @@ def streams(ctx):
     stream_includescope(ctx)
     stream_rebind(ctx)
     stream_partialhist(ctx)
+    stream_reexec(ctx)
     stream_calls(ctx)
     stream_sort(ctx)
     stream_includes(ctx)
@@ -2359,6 +2663,11 @@ def search(ctx):
             if bad:
                 witness_all(ctx, 'binding', {'text': text, 'globals': {}, 'explicit_flags': flags, 'cell': list(cell)}, bad)
                 return
+    for case in rx_directed_cases(ctx, True):
+        bad = check_reexec(case)
+        if bad:
+            witness_all(ctx, 'reexec', {'case': case}, bad)
+            return
     for cell in scope_cells():
         bad = check_scope_cell(cell)
         if bad:
@@ -2414,6 +2723,8 @@ def replay(witness):
         bad = check_partial_history(inp['hist'])
     elif kind == 'rebind':
         bad = check_rebind_cell(inp['cell'])
+    elif kind == 'reexec':
+        bad = check_reexec(inp['case'])
     elif kind == 'rebind-host':
         bad = oracle_rebind_host(inp['name'], inp['mode'], inp['before'], inp['after'])
     elif kind == 'handbuilt':
@@ -2460,7 +2771,8 @@ LEVEL_TEXT = ('Theorems about the Lean mirror of runtime.py (evaluate_expression
               'programs with include statements in every scope and host-shadowing configurations, an exhaustive matrix of calls whose own '
               'arguments rebind the callee (binding before x rebinding action x call site), generated programs with side-effecting '
               'arguments and rebinding of function names, histories of partial applications used again after they served as the base of '
-              'other partials (aliasing families x sizes up to 1000) against the compiled model, and an '
+              'other partials (aliasing families x sizes up to 1000) against the compiled model, one parsed model object executed 2-65 times under four '
+              'globals / options schedules for the whole calling-convention matrix, partial histories, repeated function statements and generated programs, and an '
               'independent Python reference of the convention plus closed-form and metamorphic oracles run on the implementation.')
 LEVEL_NOTE = ('Trusted: Lean kernel; the correspondence harness with its reference interpreter. The Lean host models 18 library functions; '
               'arraySort comparators and the expression-mode built-in table are checked on the implementation only (the lookup theorems hold '
